@@ -2,7 +2,7 @@
 (iterator chain / explicit loop, any / all, filter_map / filter+map, guard clause / nested if) the source uses."""
 from .extract import AnalysisError
 from .facts import walk, strip
-from .symx import SymEval, Poly, Unsupported, app, var, num, single_atom, atom_fn, atom_args, vkey, subst
+from .symx import SymEval, Poly, Unsupported, app, var, num, single_atom, atom_fn, atom_args, vkey, subst, unkey, contains_atom
 from .trace import Tracer
 
 PUSH_RX = r"std::vec::Vec::<T, A>::push|std::vec::Vec::<T>::push"
@@ -270,3 +270,52 @@ def as_closure(F, tracer, c):
     if isinstance(c, tuple) and len(c) == 2 and c[0] == "P":
         return c[1]
     return c
+
+
+SPLIT_AT = "core::slice::<impl [T]>::split_at"
+
+
+def _range_from_start(k):
+    """start of a RangeFrom struct value/key, else None"""
+    k = unkey(k) if not isinstance(k, Poly) else k
+    if isinstance(k, tuple) and len(k) == 3 and k[0] == "struct" and k[1] == "RangeFrom":
+        d = dict(k[2]) if not isinstance(k[2], dict) else k[2]
+        s = d.get("start")
+        return s[1] if isinstance(s, tuple) and len(s) == 2 and s[0] == "P" else s
+    return None
+
+
+def carried_progress(tracer, name):
+    """A loop-carried local that is advanced by a loop-invariant amount at exactly one assignment site.
+    -> dict(kind='counter'|'cursor', init, step, loops, guards) or None.
+       counter: name' = name + step                       (value at the r-th advance-iteration = init + r*step)
+       cursor : name' = name.split_at(step).1 | &name[step..]   (name = init[r*step..])"""
+    sites = [s for s in tracer.assign_sites if s[0].split("#")[0] == name]
+    init = [v for k, v in tracer.carried_init.items() if k.split("#")[0] == name]
+    if len(sites) != 1 or len(init) != 1:
+        return None
+    _, r, loops, guards = sites[0]
+    cur = var(name + "@loop")
+    cur_atom = single_atom(cur)
+    variant = lambda a: a[0] == "v" and (a[1].endswith("@loop") or a[1].endswith("@after") or any(
+        a[1] in (l[1] if isinstance(l[1], (tuple, list)) else (l[1],)) or (len(l) > 3 and a[1] == l[3]) for l in loops if isinstance(l[1], (str, tuple, list))))
+    if not isinstance(r, Poly):
+        return None
+    ra = single_atom(r)
+    step = kind = None
+    if ra is not None and atom_fn(ra) == "proj1":
+        inner = atom_args(ra)[0]
+        ia = single_atom(inner) if isinstance(inner, Poly) else None
+        if ia is not None and atom_fn(ia) == SPLIT_AT and atom_args(ia)[0] == cur:
+            step, kind = atom_args(ia)[1], "cursor"
+    elif ra is not None and atom_fn(ra) == "index" and atom_args(ra)[0] == cur:
+        st = _range_from_start(ra[3])
+        if st is not None:
+            step, kind = st, "cursor"
+    if kind is None:
+        d = r - cur
+        if not contains_atom(d, lambda a: a == cur_atom):
+            step, kind = d, "counter"
+    if kind is None or not isinstance(step, Poly) or contains_atom(step, variant):
+        return None
+    return {"kind": kind, "init": init[0], "step": step, "loops": loops, "guards": guards}
